@@ -9,4 +9,5 @@ CONSTANTS
 INVARIANT NonNeg
 INVARIANT EndOfInstant
 INVARIANT EndsAtZero
+INVARIANT SummaryMeaning
 CHECK_DEADLOCK FALSE
